@@ -32,6 +32,9 @@ def to_smt2(assertions):
     for a in assertions:
         s.add(a)
     txt = s.to_smt2()
+    # z3's simplifier splits seq.nth into internal in-range / out-of-range
+    # symbols that no parser accepts; both are instances of seq.nth
+    txt = txt.replace('seq.nth_i', 'seq.nth').replace('seq.nth_u', 'seq.nth')
     return '(set-logic ALL)\n' + txt
 
 
